@@ -96,6 +96,7 @@ class Contract:
         ghost_final=None,
         segment=None,
         specfns=None,
+        pure_calls=(),
     ):
         self.file, self.qualname = file, qualname
         self.props = tuple(props)
@@ -125,6 +126,7 @@ class Contract:
         self.ghost_final = ghost_final
         self.segment = segment
         self.specfns = specfns or {}
+        self.pure_calls = tuple(pure_calls)  # callees declared pure and total: lets the engine merge (not fork) simple conditionals
 
     @property
     def key(self):
@@ -135,7 +137,7 @@ class Contract:
 
     def as_inline(self):
         """contract view used for nested/inlined helper frames: same callees, no loops of its own"""
-        c = Contract(self.file, self.qualname, callees=self.callees, loops={})
+        c = Contract(self.file, self.qualname, callees=self.callees, loops={}, pure_calls=self.pure_calls)
         return c
 
 
